@@ -114,7 +114,10 @@ Definition check_corr (cs : case) : bool :=
          end
   end.
 
-(* the property on the implementation's observations *)
+(* the property on the implementation's observations.  Independence (round-5 audit): no function of Model.v is used except
+   `env_of` (parameter list -> environment); integral / initial value / padded region / durations compare two observations
+   of the implementation; only the voltage the template SPECIFIES at its end comes from Spec.denote / Spec.p_end (Spec.v
+   shares with Model.v the syntax, `eval`, the dictionary helpers, `channels` and `scalar_as_dict`, nothing of `quant`). *)
 Definition check_spec (cs : case) : bool :=
   match cs with
   | CCrash => false
